@@ -130,3 +130,14 @@ package dag
 //@     invariant forall k int :: { matches[k] } 0 <= k && k <= rangeindex ==> !(matches[k] in repository.refs)
 //@     invariant forall q string :: { (q in repository.refs) } (forall k int :: { matches[k] } 0 <= k && k < len(matches) ==> matches[k] != q) ==> (q in repository.refs) == (q in old(repository.refs)) && repository.refs[q] == old(repository.refs)[q]
 //@     invariant forall q string :: { (q in repository.refs) } (q in repository.refs) ==> (q in old(repository.refs))
+
+// Attributes of an operation object that never change once the operation exists (C10): its author and,
+// through the id cache, its id. They are modelled as pure functions of the operation object.
+//@ func (*OpBase).Author
+//@   trusted
+//@   purefn
+//@   opt interior_ok
+//@ func (*OpBase).Time
+//@   trusted
+//@   purefn
+//@   opt interior_ok
